@@ -233,6 +233,12 @@ pub fn forms() -> Vec<Form> {
     form!(v, "E:sum_owned[s,o1,o2]", AddSub, E, Op2, Sum2, |i| { let l = [i.s.e(), i.o1.e, i.o2.e]; Val::E(l.into_iter().sum::<Element>()) });
     form!(v, "E:s+sum_aff_owned[o1,o2]", AddSub, E, Op2, Sum2, |i| { let l = [i.o1.a, i.o2.a]; Val::E(i.s.e() + l.into_iter().sum::<Element>()) });
     form!(v, "E:s+sum_aff_ref[o1,o2]", AddSub, E, Op2, Sum2, |i| { let l = [i.o1.a, i.o2.a]; Val::E(i.s.e() + l.iter().sum::<Element>()) });
+    // sums through iterator adaptors whose size_hint lower bound is 0 / which are not ExactSize
+    form!(v, "E:sum_ref_filter[s,o1,o2]", AddSub, E, Op2, Sum2, |i| { let l = [i.s.e(), i.o1.e, i.o2.e]; Val::E(l.iter().filter(|_| true).sum::<Element>()) });
+    form!(v, "E:sum_owned_filter[s,o1,o2]", AddSub, E, Op2, Sum2, |i| { let l = [i.s.e(), i.o1.e, i.o2.e]; Val::E(l.into_iter().filter(|_| true).sum::<Element>()) });
+    form!(v, "E:sum_ref_chain_rev[o2,o1]+[s]", AddSub, E, Op2, Sum2, |i| { let (l, m) = ([i.o2.e, i.o1.e], [i.s.e()]); Val::E(l.iter().rev().chain(m.iter()).sum::<Element>()) });
+    form!(v, "E:s+sum_aff_ref_filter[o1,o2]", AddSub, E, Op2, Sum2, |i| { let l = [i.o1.a, i.o2.a]; Val::E(i.s.e() + l.iter().filter(|_| true).sum::<Element>()) });
+    form!(v, "E:s+sum_aff_owned_skip_while[o1,o2]", AddSub, E, Op2, Sum2, |i| { let l = [i.o1.a, i.o2.a]; Val::E(i.s.e() + l.into_iter().skip_while(|_| false).sum::<Element>()) });
     // ---- conversions
     form!(v, "E:into_affine", Conv, E, None, Id, |i| Val::A(i.s.e().into_affine()));
     form!(v, "E:Affine::from(s)", Conv, E, None, Id, |i| Val::A(Affine::from(i.s.e())));
@@ -1286,5 +1292,64 @@ pub fn run(ctx: &Arc<Ctx>, sel: Sel) {
             st = gm.step(&St { depth: 0, ..st.clone() }, a);
         }
         r.sample(&format!("E1/path{si}"), || json!({"seed": sd.name, "actions": acts, "final_coords": hex_coords(&st.c), "conforms": st.bad == 0}));
+    }
+}
+
+
+/// E3 pass for C01 / C03: valid curve points solved for so that the ENCODER's inverse-square-root
+/// argument has a structured 2-primary discrete log; each through four representatives
+/// (Z = 1, the other coset member, Z = 3, Z = -1 of the twin).
+pub fn structured_points(ctx: &Arc<Ctx>) {
+    use rayon::prelude::*;
+    let dc = Decaf::new();
+    let f = dc.c.f.clone();
+    let pts = crate::sqrtclass::encode_points(&dc, ctx.quick());
+    let c01 = ctx.prop == "C01";
+    let work: Vec<(usize, usize)> = (0..pts.len() * 4).map(|i| (i / 4, i % 4)).collect();
+    run_cases(
+        ctx, "E3/points", false,
+        work.par_iter(),
+        |&&(pi, rep)| eval_point(&dc, &pts[pi].0, rep, c01, pts[pi].1),
+        |&&(pi, rep)| ("structured-point".into(), json!({"x": pts[pi].0.x.to_string(), "y": pts[pi].0.y.to_string(), "rep": rep, "two_primary_log": pts[pi].1})),
+    );
+    ctx.report.set("structured_points", json!({"points": pts.len(), "representatives_each": 4}));
+    ctx.report.rule(format!("E3/points[{BUILD}]: {} valid curve points solved (cubic over Fq) so that the encoder's inverse-square-root argument has a structured 2-primary discrete log, x 4 representatives; encoding compared with encodeSpec / round trip", pts.len()));
+    let _ = f;
+}
+
+pub fn eval_point(dc: &Decaf, p: &Pt, rep: usize, c01: bool, e: u64) -> Outcome {
+    let f = dc.f();
+    let one = BigUint::one();
+    let scaled = |q: &Pt, lam: &BigUint| el_from_big(&f.mul(&q.x, lam), &f.mul(&q.y, lam), &f.red(lam), &f.mul(&f.mul(&q.x, &q.y), lam));
+    let el = match rep {
+        0 => scaled(p, &one),
+        1 => scaled(&dc.c.other_rep(p), &one),
+        2 => scaled(p, &u(3)),
+        _ => scaled(&dc.c.other_rep(p), &f.neg(&one)),
+    };
+    let class = format!("point/rep{rep}/{}", if e % 2 == 0 { "even-log" } else { "odd-log" });
+    let case = json!({"x": p.x.to_string(), "y": p.y.to_string(), "rep": rep, "two_primary_log": e});
+    let enc = el.vartime_compress().0;
+    if c01 {
+        match Encoding(enc).vartime_decompress() {
+            Ok(d) if d == el && d.vartime_compress().0 == enc => Outcome::ok(class),
+            _ => Outcome::bad(class, Viol { key: "C01|structured-point|roundtrip".into(), engine: "E3/points".into(), case, expected: "decompress(compress(E)) == E and re-encodes identically".into(), got: hex::encode(enc) }),
+        }
+    } else {
+        let want = dc.encode_spec_bytes(p).expect("valid point");
+        if enc != want {
+            return Outcome::bad(class, Viol { key: "C03|structured-point|spec-encoding".into(), engine: "E3/points".into(), case, expected: hex::encode(want), got: hex::encode(enc) });
+        }
+        Outcome::ok(class)
+    }
+}
+
+pub fn replay_point(case: &Value, prop: &str) -> (bool, Value) {
+    let dc = Decaf::new();
+    let p = Pt { x: case["x"].as_str().unwrap_or("0").parse().unwrap_or_default(), y: case["y"].as_str().unwrap_or("0").parse().unwrap_or_default() };
+    let o = eval_point(&dc, &p, case["rep"].as_u64().unwrap_or(0) as usize, prop == "C01", case["two_primary_log"].as_u64().unwrap_or(0));
+    match o.viol {
+        Some(v) => (false, json!({"expected": v.expected, "got": v.got})),
+        None => (true, json!({"class": o.class})),
     }
 }
